@@ -1259,7 +1259,8 @@ mod race {
     }
     /// yield points that lie INSIDE a latch critical section (everything except the start of the call and the
     /// point right before `probation.lock()`): a thread parked there must hold the probation mutex
-    fn interior(name: &str) -> bool { name != "start" && !name.ends_with(":before-lock") }
+    fn interior(name: &str) -> bool { name != "start" && !name.ends_with(":before-lock") && !name.ends_with(":unlocked") }
+    /// `…:unlocked`: the thread has just released the probation mutex (end of its critical section) but is not done
 
     #[derive(Clone, Debug, PartialEq)]
     /// `Pkt`: the second thread is another `receive()` (the RTCP-socket reader task of a non-mux call delivers to the same `IceConn`)
@@ -1353,7 +1354,7 @@ mod race {
                 let t = if ch == 'r' { 0 } else { 1 };
                 let o = 1 - t;
                 // a blocked thread must still be inside lock(): it may not have reached a point while the holder is not done
-                for b in 0..2 { if blocked[b] { let g = ctl.m.lock().unwrap(); if settled(&g, b) && !g.done[1 - b] {
+                for b in 0..2 { if blocked[b] { let g = ctl.m.lock().unwrap(); if settled(&g, b) && !g.done[1 - b] && !g.paused[1 - b].map(|n| n.ends_with(":unlocked")).unwrap_or(false) {
                     out.violations.push(("race:mutual-exclusion-violated".into(), format!("pick {k}: the {} thread, released at its before-lock point while the {} thread holds the probation mutex, reached {:?} before the holder finished", name_of(b), name_of(1 - b), g.paused[b])));
                     blocked[b] = false; } } }
                 let at = { let g = ctl.m.lock().unwrap(); if g.done[t] || blocked[t] { continue; } g.paused[t].unwrap_or("") };
@@ -1369,8 +1370,12 @@ mod race {
                 let (now_at, t_done) = { let g = ctl.m.lock().unwrap(); (g.paused[t], g.done[t]) };
                 if let Some(n) = now_at { if interior(n) && !conn.verif_probation_locked() {
                     out.violations.push(("race:critical-section-without-the-mutex".into(), format!("pick {k}: the {} thread is at `{n}` (inside its critical section) and the probation mutex is free", name_of(t)))); } }
-                // leaving the critical section hands the mutex to a blocked peer, which runs to its next point by itself
-                if t_done && blocked[o] {
+                if let Some(n) = now_at { if n.ends_with(":unlocked") && conn.verif_probation_locked() && !blocked[o] {
+                    out.violations.push(("race:mutex-still-held-after-the-critical-section".into(), format!("pick {k}: the {} thread is at `{n}` and the probation mutex is locked", name_of(t)))); } }
+                // leaving the critical section (done, or parked right behind the unlock) hands the mutex to a blocked peer, which
+                // runs to its next point by itself
+                let left_crit = t_done || now_at.map(|n| n.ends_with(":unlocked")).unwrap_or(false);
+                if left_crit && blocked[o] {
                     if let Err(e) = wait_parked(o) { err = Some(e); break 'sched; }
                     blocked[o] = false;
                     let g = ctl.m.lock().unwrap();
